@@ -73,6 +73,9 @@ func (f *File) Match(property string, features map[string]bool, kind, site strin
 		}
 		ok := true
 		for _, t := range e.Trigger {
+			if strings.HasPrefix(t, "gate:") {
+				continue // generator gate, not a case feature
+			}
 			neg := strings.HasPrefix(t, "!")
 			t = strings.TrimPrefix(t, "!")
 			if features[t] == neg {
